@@ -104,6 +104,21 @@ func c30(r *core.Run) {
 	if genMode() {
 		genJSON(r, "c30_metering", edges)
 	}
+	// measure the current tree through helpers (static callees, depth 2): moving a metering call into a helper is not a violation
+	direct := map[string]map[string]int{}
+	for k, ks := range edges {
+		direct[k] = map[string]int{}
+		for _, x := range ks {
+			direct[k][x] = 1
+		}
+	}
+	deepEdges := map[string][]string{}
+	for k, items := range w.DeepCounts(direct, 2) {
+		for it := range items {
+			deepEdges[k] = append(deepEdges[k], it)
+		}
+	}
+	edges = deepEdges
 	var pinned map[string][]string
 	if r.Table("c30_metering", &pinned) {
 		for k, kinds := range pinned {
